@@ -142,8 +142,85 @@ impl WorkerState for W {
         if case.first().map(|c| c.as_slice()) == Some(b"#!script") {
             return self.script_case(case);
         }
+        let empty: Vec<u8> = Vec::new();
+        let s0 = case.first().unwrap_or(&empty);
+        if s0.first().copied().unwrap_or(0) >= 236 {
+            return self.template_case(&s0[1..]);
+        }
         let prog = self.make(case);
         self.check(&prog, case, render)
+    }
+}
+
+impl W {
+    /// Scripts from templates around values of the built-in types the program generator does not
+    /// produce (addresses, prefixes, AS numbers, long strings, 64-bit constants): a literal in a helper
+    /// function that is called several times, in a loop, from two call sites.
+    fn template_case(&mut self, ctl: &[u8]) -> Outcome {
+        let mut c = Choices::new(ctl);
+        let lits: [(&str, &[&str]); 7] = [
+            ("IpAddr", &["10.0.0.1", "192.168.1.255", "::1", "2001:db8::53", "0.0.0.0", "255.255.255.255"]),
+            ("Prefix", &["10.0.0.0 / 8", "192.168.0.0 / 16", "2001:db8:: / 32", "0.0.0.0 / 0"]),
+            ("Asn", &["AS0", "AS65000", "AS4294967295"]),
+            ("String", &["\"\"", "\"a\"", "\"a string of more than twenty-three bytes, to be sure\"", "\"é\""]),
+            ("u64", &["0", "4294967296", "9223372036854775807", "1311768467463790320"]),
+            ("char", &["'a'", "'é'", "'\\n'"]),
+            ("i64", &["-1", "-9223372036854775807", "4294967297"]),
+        ];
+        let (ty, pool) = lits[c.below(lits.len())];
+        let a = pool[c.below(pool.len())];
+        let b = pool[c.below(pool.len())];
+        let d = pool[c.below(pool.len())];
+        let k = 1 + c.below(4);
+        let helper = match c.below(4) {
+            0 => format!("fn hit(v: {ty}) -> i32 {{ if v == {a} {{ 1 }} else {{ 0 }} }}"),
+            1 => format!("fn hit(v: {ty}) -> i32 {{ let w = {a}; if w == v {{ 1 }} else {{ 0 }} }}"),
+            2 => format!("fn lit() -> {ty} {{ {a} }}\nfn hit(v: {ty}) -> i32 {{ if lit() == v && v == lit() {{ 1 }} else {{ 0 }} }}"),
+            _ => format!("fn hit(v: {ty}) -> i32 {{ let n = 0; if v == {a} {{ n = n + 1; }} if v != {b} {{ n = n + 10; }} n }}"),
+        };
+        let main = match c.below(3) {
+            0 => format!("fn main() -> i32 {{ let v = {d}; let n = 0; let i = 0; while i < {k} {{ n = n + hit(v); i = i + 1; }} n }}"),
+            1 => format!("fn main() -> i32 {{ hit({d}) + hit({a}) * 100 + hit({b}) * 10000 }}"),
+            _ => format!("fn twice(v: {ty}) -> i32 {{ hit(v) + hit(v) }}\nfn main() -> i32 {{ twice({d}) + twice({a}) * 100 }}"),
+        };
+        let src = format!("{helper}\n{main}\n");
+        let lowered = match roto::FileTree::test_file("case.roto", &src, 0).parse().and_then(|p| p.typecheck(&self.rt)) {
+            Ok(tc) => tc.lower_to_mir().lower_to_lir(),
+            Err(e) => return Outcome::discard(format!("template rejected by the compiler:\n{}\n{src}", host::render_report(&e))),
+        };
+        host::reset(vec![1, 2, 3, 4, 5, 6]);
+        crate::worker::take_panic();
+        let r = std::panic::catch_unwind(std::panic::AssertUnwindSafe(|| lowered.verif_eval(&[])));
+        let mut o = Outcome::pass();
+        o.hash = fnv(src.as_bytes());
+        o.classes.push("sub:template".into());
+        let r = match r {
+            Ok(r) => r,
+            Err(_) => {
+                crate::worker::take_panic();
+                o.classes.push("evaluator:stopped-loudly".into());
+                return o;
+            }
+        };
+        let mut pkg = lowered.codegen();
+        let f = match pkg.get_function::<fn() -> i32>("main") {
+            Ok(f) => f,
+            Err(e) => return Outcome::discard(format!("{e}")),
+        };
+        let got = f.call();
+        match r {
+            EvalResult::Value(Scalar::I32(x)) if x == got => {
+                o.nontrivial = true;
+                o.classes.push("evaluator:agrees".into());
+                o.render = Some(src);
+                o
+            }
+            EvalResult::Value(_) => Outcome::fail("evaluator-disagrees:return-value", format!("evaluator: {r:?}, compiled code: {got}\n{src}")),
+            _ => {
+                o.classes.push("evaluator:stopped-loudly".into());
+                o
+            }
+        }
     }
 }
 
